@@ -100,7 +100,8 @@ def run_shard(shard, ctx):
     if shard[0] == "far":
         return _far(ctx, shard[1])
     if shard[0] == "unsorted":
-        return _unsorted(ctx, shard[1])
+        _unsorted(ctx, shard[1])
+        return _unsorted_across(ctx, shard[1])
     if shard[0] == "long":
         r = shard[1]
         B = bpms(r)
@@ -247,6 +248,38 @@ def _unsorted(ctx, r):
                 ctx.hist["undecided(parse or query raises; owned by C01/C08/C15)"] += 1
             elif got != "monotone":
                 e1.report(ctx, "monotone", text, srcp, ["monotone"], got, "resolution %d tempo map %r, lines in file order %r" % (r, [list(x) for x in tempo], order), extra_case=dict(far=[strict, 0]))
+
+
+def _unsorted_across(ctx, r):
+    """Body lines that step back ACROSS a tempo change. The parser may reject such a chart (the pinned one does:
+    counted as undecided) - but IF it hands out a chart, the times in it are monotone in the tick."""
+    import itertools as it
+
+    B = bpms(r)
+    orders = ((0, 25, 12), (0, 12, 25, 3), (0, 40, 20), (0, 21, 19), (0, 20, 19), (0, 30, 10, 5), (0, 9, 26, 15, 40))
+    for n0, n1, n2 in it.product(B[1:3] + B[-1:], repeat=3):
+        tempo = [(0, n0), (10, n1), (20, n2)]
+        strict = all(n * r <= 3 * 10**10 for _, n in tempo)
+        srcp = "STRICT = %r\nFIRST_CHANGE = 0\n" % strict + FAR_SRC.strip("\n")
+        pr = e1.compile_probe(srcp)
+        for order in orders:
+            srt = sorted(order)
+            for kind in ("TS", "global", "N", "N-sustained", "S", "E"):
+                o = lambda k: order if k == kind else srt  # noqa: E731
+                sync = ["%d = B %d" % tn for tn in tempo] + ["0 = TS 4"] + ["%d = TS 3" % t for t in o("TS") if t]
+                ev = ['%d = E "x"' % t for t in o("global")]
+                a = ["%d = N %d %d" % (t, t % 5, 7 if kind == "N-sustained" else 0) for t in (o("N") if kind != "N-sustained" else o("N-sustained"))]
+                b = ["%d = S 2 2" % t for t in o("S")] + ["%d = E e" % t for t in o("E")]
+                text = mk(res=r, sync=sync, events=ev, tracks=[("ExpertSingle", a), ("HardDrums", b)])
+                got = e1.run_probe(pr, text)
+                ctx.case((r, tuple(tempo), order, kind), sample=lambda: dict(resolution=r, tempo=[list(x) for x in tempo], file_order=list(order), kind=kind))
+                ctx.evaluations += 3 * len(order)
+                if isinstance(got, list) and got[:1] == ["raises"]:
+                    ctx.hist["stepping_back_across_a_tempo_change_rejected"] += 1
+                elif got != "monotone":
+                    e1.report(ctx, "monotone", text, srcp, ["monotone"], got, "resolution %d tempo map %r, %s lines in file order %r (stepping back across a tempo change) are ACCEPTED" % (r, [list(x) for x in tempo], kind, list(order)), extra_case=dict(far=[strict, 0]))
+                else:
+                    ctx.hist["stepping_back_across_a_tempo_change_accepted_and_monotone"] += 1
 
 
 def _subus(ctx, r):
